@@ -1,8 +1,9 @@
 (* Extraction of the WHERE "<expr>" model (C12). ExtrOcamlBasic only. *)
 From Coq Require Import Extraction ExtrOcamlBasic.
 From Coq Require Import ZArith.
-From T38 Require Import Base.Bytes Model.Float32 Model.Where Model.WhereExpr Model.WhereExprF64 Model.WhereExprScan.
+From T38 Require Import Base.Bytes Model.Float32 Model.Where Model.WhereExpr Model.WhereExprF64 Model.WhereExprScan Model.WhereExprTree.
 Extraction Language OCaml.
 Extraction "model.ml" Z.add Z.of_N Nat.add eval match_expr f64_oracle f64_of_bits bits_of_f64 read_group
   parse_string detect_expr_token steps_of parse_float_dec fmt_f64 squash trim value_to_expr to_eobj
-  scan_expr_ids clauses_match where_make read_ident unescape_string f_to_Z.
+  scan_expr_ids clauses_match where_make read_ident unescape_string f_to_Z
+  print wf den den_match.
